@@ -25,7 +25,12 @@ def _env(target_dir=None):
 
 def _run(cmd, cwd, log, timeout, mem_gb, env):
     """run under ulimit -v and a wall-clock timeout; kill the whole process group on timeout"""
-    sh = "ulimit -v %d; exec %s" % (int(mem_gb * 1024 * 1024), " ".join(_q(c) for c in cmd))
+    # the memory cap applies to cbmc only (tools/bin/cbmc wrapper); capping the Kani driver itself
+    # makes it die with "memory allocation failed" under -j
+    env = dict(env)
+    env["VERIF_CBMC_MEM_KB"] = str(int(mem_gb * 1024 * 1024))
+    env["PATH"] = os.path.join(os.path.dirname(os.path.abspath(__file__)), "bin") + ":" + env.get("PATH", "")
+    sh = "exec %s" % " ".join(_q(c) for c in cmd)
     t0 = time.time()
     with open(log, "w") as lf:
         p = subprocess.Popen(["bash", "-c", sh], cwd=cwd, stdout=lf, stderr=subprocess.STDOUT, env=env, start_new_session=True)
@@ -68,6 +73,8 @@ def run_group(stage_dir, crate, harnesses, jobs, harness_timeout, mem_gb, tag, e
     # wall clock: all harnesses could serialize on `jobs` workers
     rounds = (len(harnesses) + jobs - 1) // jobs
     wall = 240 + rounds * (harness_timeout + 30)
+    if with_playback:
+        wall = harness_timeout + 45
     rc, timed_out, secs = _run(cmd, stage_dir, log, wall, mem_gb, _env(os.path.join(stage_dir, "target")))
     text = open(log, errors="replace").read()
     results = {}
@@ -153,6 +160,10 @@ def run_group(stage_dir, crate, harnesses, jobs, harness_timeout, mem_gb, tag, e
         for h in harnesses:
             if results[h]["status"] == "missing":
                 results[h]["status"] = "timeout"
+    tail = [ln for ln in text.splitlines() if ln.strip() and not ln.startswith(("warning", " ", "note"))][-6:]
+    for h in harnesses:
+        if results[h]["status"] == "missing":
+            results[h]["detail"] = tail
     # playback tests printed by Kani
     for m in re.finditer(r"Concrete playback unit test for `([\w:]+)`:\s*```\n(.*?)```", text, re.S):
         h = m.group(1)
